@@ -132,8 +132,14 @@ def run(ctx):
     scale = float(os.environ.get("C19_TIMEOUT_SCALE", "1"))
 
     # 1. the specification decides the property ------------------------------------------------------
-    decide = [("MC_quick_single.cfg", {}), ("MC_views.cfg", {"@@MAXOPS@@": 2, "@@CAPS@@": "{1}"})] if quick else \
-             [("MC_single.cfg", {}), ("MC_views.cfg", {"@@MAXOPS@@": 3, "@@CAPS@@": "{1, 2}"})]
+    allv, shared = "{3, 5, 6, 9, 10, 11, 12, 13, 14, 15, 16, 18}", "{6, 13, 14, 16}"
+    if quick:
+        decide = [("MC_quick_single.cfg", {}),
+                  ("MC_views.cfg", {"@@STACKS@@": allv, "@@MAXOPS@@": 2, "@@CAPS@@": "{1}"})]
+    else:
+        decide = [("MC_single.cfg", {}),
+                  ("MC_views.cfg", {"@@STACKS@@": allv, "@@MAXOPS@@": 3, "@@CAPS@@": "{1, 2}"}),
+                  ("MC_views.cfg", {"@@STACKS@@": shared, "@@MAXOPS@@": 4, "@@CAPS@@": "{1}"})]
     for cfg, subst in (decide if "decide" in phases else []):
         r = ctx.tlc("cache", "CacheStack", cfg=cfg, subst=subst or None, workers=workers(), timeout=(780 if not quick else 300) * scale,
                     deadlock=False, coverage=not quick)
@@ -148,11 +154,12 @@ def run(ctx):
         ctx.require_tlc_ok(r, "JumpHash")
 
     # 2. spec -> code: transition cover ---------------------------------------------------------------
-    covers = ["MC_cover_quick.cfg"] if quick else ["MC_cover_single.cfg", "MC_cover_views.cfg"]
+    covers = ["MC_cover_quick.cfg"] if quick else ["MC_cover_quick.cfg", "MC_cover_single.cfg", "MC_cover_views.cfg"]
     for cfg in (covers if "cover" in phases else []):
         r = ctx.tlc("cache", "CacheStack", cfg=cfg, workers=1, timeout=780 * scale, deadlock=False, coverage=not quick)
         ctx.require_tlc_ok(r, cfg)
-        zero = [a for a in r.coverage_zero if a in CORE_ACTIONS + VARIANT_ACTIONS and not (a == "PokeOp" and cfg == "MC_cover_views.cfg")]
+        off = {"MC_cover_quick.cfg": ("PokeOp",), "MC_cover_views.cfg": ("PokeOp",), "MC_cover_single.cfg": VARIANT_ACTIONS}[cfg]
+        zero = [a for a in r.coverage_zero if a in CORE_ACTIONS + VARIANT_ACTIONS and a not in off]
         if zero:
             incon("%s: actions with zero coverage: %s" % (cfg, zero))
         if r.emitted == 0:
